@@ -216,3 +216,41 @@ func firstLines(s string, n int) string {
 	}
 	return strings.Join(ls, " | ")
 }
+
+// HuntModel looks for a candidate counterexample of a failed obligation: the query without
+// any quantified assumption (which is what keeps the solvers from answering sat).  The model
+// is only a candidate: it must be confirmed by a replay on the real code.
+func HuntModel(lines []string, o *Obligation, work string) string {
+	var b strings.Builder
+	n := o.At
+	if n > len(lines) {
+		n = len(lines)
+	}
+	for _, l := range lines[:n] {
+		if strings.HasPrefix(l, "(assert") && (strings.Contains(l, "(forall ") || strings.Contains(l, "(exists ")) {
+			continue
+		}
+		if strings.Contains(l, "\n") {
+			// prelude block: filter line by line
+			for _, pl := range strings.Split(l, "\n") {
+				if strings.HasPrefix(pl, "(assert") && strings.Contains(pl, "(forall ") {
+					continue
+				}
+				b.WriteString(pl)
+				b.WriteByte('\n')
+			}
+			continue
+		}
+		b.WriteString(l)
+		b.WriteByte('\n')
+	}
+	fmt.Fprintf(&b, "(assert %s)\n(assert (not %s))\n(check-sat)\n(get-model)\n", o.PC, o.Goal)
+	file := filepath.Join(work, "hunt_"+sanitize(o.Name)+".smt2")
+	os.WriteFile(file, []byte(b.String()), 0o644)
+	defer os.Remove(file)
+	st, out, _ := runSolver(context.Background(), solvers[0], 8, file)
+	if st == "sat" {
+		return out
+	}
+	return ""
+}
